@@ -64,7 +64,7 @@ def regenerate(ROOT, REPO):
     from pathlib import Path
     sys.path.insert(0, str(Path(ROOT) / "tools" / "cpp2lean"))
     import jobs
-    return jobs.regenerate(["comparators"], Path(ROOT), Path(REPO))
+    return jobs.regenerate(["comparators", "makepath"], Path(ROOT), Path(REPO))
 
 
 def plan(tier, seed, searching):
